@@ -29,6 +29,8 @@ pub struct Shard {
     pub budget: Duration,
     pub replay: Option<PathBuf>,
     pub start: Instant,
+    /// replay of one case of a campaign by its index
+    pub only_case: Option<u64>,
 }
 impl Shard {
     pub fn time_left(&self) -> bool { self.start.elapsed() < self.budget }
@@ -55,6 +57,11 @@ pub struct Acc {
     pub notes: Vec<String>,
 }
 pub static ACC: Mutex<Option<Acc>> = Mutex::new(None);
+
+/// progress marker watched by the hang watchdog (main.rs): ticks whenever a new case / schedule / history starts
+pub static CASE_SEQ: std::sync::atomic::AtomicU64 = std::sync::atomic::AtomicU64::new(0);
+pub static CUR_INDEX: std::sync::atomic::AtomicU64 = std::sync::atomic::AtomicU64::new(u64::MAX);
+pub fn tick() { CASE_SEQ.fetch_add(1, std::sync::atomic::Ordering::Relaxed); }
 
 pub fn acc_init(out: PathBuf) {
     *ACC.lock().unwrap() = Some(Acc { out: Some(out), max_samples: 6, ..Default::default() });
